@@ -197,6 +197,49 @@ def scoped_sites(nodes, env, out, counters):
             pass
 
 
+def script_module_family(res):
+    """-> [(program, [(desc, it, generated term, reference term)])]"""
+    import itertools
+    mods = [('fmt', 'inline'), ('util', 'src:u'), ('lib', 'src:w'), ('loc', 'inline')]
+    out = []
+    orders = [list(o) for o in itertools.permutations(mods[:3])] + [[mods[3], mods[1], mods[0], mods[2]], [mods[1], mods[3]]]
+    groups = []
+    progs = []
+    for order in orders:
+        decl = ''.join('<wxs module="%s">module.exports={tag:1}</wxs>' % n if k == 'inline' else '<wxs module="%s" src="./%s.wxs"/>' % (n, k[4:]) for n, k in order)
+        uses = ''.join(' s%d="{{ %s.tag }}"' % (i, n) for i, (n, k) in enumerate(order))
+        body = '<view%s/><block wx:for="{{ l }}"><view%s/></block><template name="t"><view%s/></template>' % (uses, uses.replace(' s', ' f'), uses.replace(' s', ' t'))
+        wxml = decl + body
+        progs.append({'title': 'script modules ' + ' '.join(k.split(':')[0] for _, k in order), 'wxml': wxml, 'order': order})
+        groups.append({'files': [['a', wxml]], 'scripts': [['u', 'exports.tag=2'], ['w', 'exports.tag=3']], 'main': 'a'})
+    comp = driver.compile_groups(groups, want=('gen_groups',))
+    for p, c in zip(progs, comp):
+        if 'panic' in c:
+            res.violation({'engine': 'J', 'harness': 'compile', 'class': 'panic:' + p['title']}, 'compiler panics on %r: %s' % (p['wxml'], c['panic']), {'wxml': p['wxml']})
+            continue
+        if any(dg['level'] >= 3 for dg in c['diagnostics']):
+            res.inconc('%s rejected by the parser: %s' % (p['wxml'][:150], c['diagnostics'][:1]))
+            continue
+        checks = []
+        try:
+            for tname, prefix in (('', 's'), ('', 'f'), ('t', 't')):
+                rt = Runtime('create')
+                H = rt.load_groups(c['gen_groups'], 'a')
+                root = rt.run(H, name=tname)
+                for i, (n, k) in enumerate(p['order']):
+                    hits = driver.find_attr(root, '%s%d' % (prefix, i))
+                    if len(hits) != 1:
+                        raise JsUnsupported('site %s%d: %d hits' % (prefix, i, len(hits)))
+                    modv = z3.Const('wxs_a_%s' % n if k == 'inline' else 'wxs_%s' % k[4:], V)
+                    ref = M.RefEval(rt.it, rt.D, scopes={n: modv})
+                    checks.append(('%s%d {{ %s.tag }}' % (prefix, i, n), rt.it, hits[0][1][1][1], ref.ev(('mem', I(n), 'tag'))))
+        except JsUnsupported as e:
+            res.inconc('%s: outside the translator: %s' % (p['title'], e))
+            continue
+        out.append((p, checks))
+    return out
+
+
 def main(tier):
     res = Result('C05', 'translation_validation')
     res.engines = ['J (symbolic execution of the emitted JavaScript + z3)', 'K (Kani harnesses on sub_expressions / convert_scopes)']
@@ -227,6 +270,17 @@ def main(tier):
             elif verdict == 'unknown':
                 res.inconc('%s [%s]: solver unknown' % (p['title'], desc))
             else:
+                bad.setdefault(p['title'], []).append((p, desc, it.term(gen), it.term(ref)))
+    # script modules: inline <wxs> and <wxs src> in every order; each name must resolve to its own module
+    for p, checks in script_module_family(res):
+        for (desc, it, gen, ref) in checks:
+            nsites += 1
+            verdict, model, dt = driver.decide_equal(it, gen, ref)
+            res.solver_time += dt
+            res.query(verdict)
+            if verdict == 'unknown':
+                res.inconc('%s [%s]: solver unknown' % (p['title'], desc))
+            elif verdict != 'unsat':
                 bad.setdefault(p['title'], []).append((p, desc, it.term(gen), it.term(ref)))
     for title, items in sorted(bad.items()):
         p, desc, g, r = items[0]
